@@ -1,4 +1,4 @@
-import SqiProofs.CurveJac
+import SqiProofs.CurveDblmul
 
 /-! # C08 — x-only Montgomery curve arithmetic implements the elliptic-curve group law
 
@@ -163,6 +163,35 @@ theorem ec_ladder3pt_correct {a : F} (h2 : (2 : F) ≠ 0) (nbits m : Nat) (curve
     IsX (Pt + (m % 2 ^ nbits) • Qt) (ladder3pt nbits m P Q PQ curve).x (ladder3pt nbits m P Q PQ curve).z := by
   have := ladder3bits_isX h2 hA hP hQ hD (bitsLSB nbits m) hg
   rwa [valLSB_bitsLSB] at this
+
+/-! ## two-dimensional scalar multiplication (xDBLMUL) — partial -/
+
+/-- FULL STATEMENT (not proved): for all `nbits`, `k l < 2^nbits`, `P Q` and `PQ = P - Q` with all differences met
+non-degenerate, `IsX ([k']P + [l']Q) (xDBLMUL nbits k l P Q PQ curve)` where `k' = k` for `k ≠ 0` and `k' = 2^nbits`
+for `k = 0` (likewise `l'`) — this is what the code computes (the even scalar is decremented with wrap-around; see
+notes/C08.md, finding "scalar 0 is treated as 2^BITS"), so the statement with `k' = k` is false for `k = 0` unless
+`[2^nbits]P = ∞`.
+PROVED PART: one applied iteration of the main loop implements, on the group, doubling of the selected register and
+the two differential additions with the swapped difference registers (`dblmulStep`, over the generated
+`select_point`, `swap_points`, `xDBL_A24_normalized`, `xADD`).
+MISSING: the recoding lemma (the digits `r` reconstruct the odd-ified scalars for both parities) and the composition
+of the steps into the global invariant; the model `SqiModel.Ladder.xDBLMULgen` is tied to the C code by the
+correspondence harness and compared with the affine oracle on every run (both variants). -/
+theorem xDBLMUL_step_partial {a : F} (h2 : (2 : F) ≠ 0) {A24 : EcPoint F} (hA : 4 * A24.x = a + 2)
+    (st : DState F) (r0 r1 : Bool) (M0 M1 M2 : (mont a).Point)
+    (h0 : IsX M0 st.R0.x st.R0.z) (h1 : IsX M1 st.R1.x st.R1.z) (h2' : IsX M2 st.R2.x st.R2.z)
+    (hd1 : IsX ((if r1 then M1 else M0) - (if r1 then M2 else M1))
+      (if r1 then st.D1b else st.D1a).x (if r1 then st.D1b else st.D1a).z)
+    (hd1x : (if r1 then st.D1b else st.D1a).x ≠ 0) (hd1z : (if r1 then st.D1b else st.D1a).z ≠ 0)
+    (hd2 : IsX (M0 - M2) st.D2a.x st.D2a.z) (hd2x : st.D2a.x ≠ 0) (hd2z : st.D2a.z ≠ 0) :
+    let st' := dblmulStep A24 st (r0, r1) true
+    let S := if r0 && r1 then M2 else if xor r0 r1 then M1 else M0
+    IsX (S + S) st'.R0.x st'.R0.z ∧
+    IsX ((if r1 then M1 else M0) + (if r1 then M2 else M1)) st'.R1.x st'.R1.z ∧
+    IsX (M0 + M2) st'.R2.x st'.R2.z ∧
+    (st'.D1a, st'.D1b) = (if r1 then (st.D1b, st.D1a) else (st.D1a, st.D1b)) ∧
+    (st'.D2a, st'.D2b) = (if xor r0 r1 then (st.D2b, st.D2a) else (st.D2a, st.D2b)) :=
+  dblmulStep_ok h2 hA st r0 r1 M0 M1 M2 h0 h1 h2' hd1 hd1x hd1z hd2 hd2x hd2z
 
 /-! ## repeated doubling -/
 
